@@ -315,6 +315,26 @@ def _cc_job(kw):
                         ok = any(A.equal(A.to_rat(pt), x * (A.Rat.const(1) + A.sym(m, True) * A.sym(m, True) / Q2), tol=Fraction(0)) for m in ("mc", "mb", "mt"))
                         if not ok:
                             bad.append(A.canon(pt)[:80])
+    # every massive quark that contributes at LO does so at ITS slow-rescaling point: the LO delta term of the massive CC channel of quark q
+    # sits at x (1 + m_q^2/Q^2).  (A convolution handed over from another kernel - a light one, another quark's - would sit elsewhere.)
+    kind, _, fl = kw["obs"].partition("_")
+    wanted = {"charm": [4], "bottom": [5], "top": [6], "total": [4, 5, 6]}.get(fl, [])
+    wanted = [q for q in wanted if q > kw["nfff"] or (kw["fns"].startswith("FONLL") and q == kw["nfff"] + 1)]
+    if kw["fns"].startswith("FONLL"):
+        wanted = [q for q in wanted if q == kw["nfff"] + 1]
+    lo_points = set()
+    for row in op.orders.get((0, 0, 0, 0), ([], []))[0]:
+        for e in row:
+            if isinstance(e, A.Rat):
+                for a in e.atoms():
+                    ad = A.ATOMS.get(a)
+                    if a.startswith("conv(") and ad is not None and ad.payload:
+                        lo_points.add(A.canon(A.to_rat(ad.payload[1][1])))
+    for q in wanted:
+        m = A.sym({4: "mc", 5: "mb", 6: "mt"}[q], True)
+        chi = A.canon(x * (A.Rat.const(1) + m * m / Q2))
+        if chi not in lo_points:
+            bad.append(f"NO LO term at the slow-rescaling point of the massive quark {q}: the points present are {sorted(lo_points)[:3]}")
     return ("ok", sorted(set(bad))[:2], n)
 
 
@@ -359,7 +379,7 @@ def check_cc(rep, proj, tier):
         _, bad, n = o
         n_atoms += n
         rep.check(not bad, "C09.cc", "src/yadism/esf/esf.py", label, f"{n} massive CC quadratures taken at x (1 + m^2/Q^2); operator identical on both sides of W^2 = 4 m^2",
-                  "; ".join(b if "entries change" in b else f"massive CC quadrature at {b} instead of x (1 + m^2/Q^2)" for b in bad), key=label)
+                  "; ".join(b if ("entries change" in b or b.startswith("NO LO")) else f"massive CC quadrature at {b} instead of x (1 + m^2/Q^2)" for b in bad), key=label)
     rep.floor("massive CC quadrature atoms", n_atoms, 50)
 
 
